@@ -21,7 +21,7 @@ namespace {
 
 struct Case {
    int flavor = 0;   // 0 owning container<T>, 1 intrusive chain<Node>
-   int cmp = 0;      // 0 int, 1 address, 2 lexicographic
+   int cmp = 0;      // 0 int, 1 address, 2 lexicographic, 3 int order through a comparator with a 64-bit result
    std::vector<int> keys;
 };
 
@@ -80,7 +80,8 @@ Digits digits(int k)
 int order(int cmp, int a, int b)
 {
    switch (cmp) {
-   case 0: return sgn((long long)a - b);
+   case 0:
+   case 3: return sgn((long long)a - b);   // 3: the same order, but the tree is given a comparator whose result is a 64-bit difference
    case 1: {
       const Slot* pa = &address_arena[scramble(a)];
       const Slot* pb = &address_arena[scramble(b)];
@@ -112,6 +113,15 @@ struct Comp {
    int operator()(const Elem& d, int k) const { return order(cmp, d.key, k); }
    int operator()(const INode& d, const INode& k) const { return order(cmp, d.key, k.key); }
    int operator()(const INode& d, int k) const { return order(cmp, d.key, k); }
+};
+
+// A total order whose three-way result does not fit an int: keys one apart differ by more than 2^32.
+inline long long widen(int k) { return (long long)k * 5000000011LL; }
+struct WideComp {
+   long long operator()(const Elem& d, const Elem& k) const { return widen(d.key) - widen(k.key); }
+   long long operator()(const Elem& d, int k) const { return widen(d.key) - widen(k); }
+   long long operator()(const INode& d, const INode& k) const { return widen(d.key) - widen(k.key); }
+   long long operator()(const INode& d, int k) const { return widen(d.key) - widen(k); }
 };
 
 struct Owning : rbt::container<Elem> {
@@ -227,11 +237,10 @@ const char* predict_fixup(N* root, int cmp, int key, KeyOf key_of)
    return left ? "double-right-left" : "single-left";
 }
 
-template<class Tree>
-void exercise(const Case& c, vf::Outcome& out, Tree& tree, std::deque<INode>* store)
+template<class Tree, class Comparator>
+void exercise(const Case& c, vf::Outcome& out, Tree& tree, std::deque<INode>* store, const Comparator comp)
 {
    using N = typename Tree::N;
-   const Comp comp{c.cmp};
    std::map<int, int> model;   // key -> serial of first insertion
    const std::size_t n = c.keys.size();
    const bool check_every = n <= 256;
@@ -338,7 +347,7 @@ void exercise(const Case& c, vf::Outcome& out, Tree& tree, std::deque<INode>* st
    out.count("keys", long(n));
    out.count("duplicates", long(n - model.size()));
    out.count(c.flavor ? "flavor_intrusive" : "flavor_owning");
-   out.count(c.cmp == 0 ? "cmp_int" : (c.cmp == 1 ? "cmp_address" : "cmp_lexicographic"));
+   out.count(c.cmp == 0 ? "cmp_int" : (c.cmp == 1 ? "cmp_address" : (c.cmp == 2 ? "cmp_lexicographic" : "cmp_wide_64bit")));
 }
 
 vf::Outcome run_case(const Case& c, const vf::Options&)
@@ -348,13 +357,15 @@ vf::Outcome run_case(const Case& c, const vf::Options&)
       // a tree that failed its invariants is not handed to its destructor (walking a corrupt tree would end the process
       // before the finding is reported); it is deliberately left allocated
       auto* tree = new Owning;
-      exercise(c, out, *tree, nullptr);
+      if (c.cmp == 3) exercise(c, out, *tree, nullptr, WideComp{});
+      else exercise(c, out, *tree, nullptr, Comp{c.cmp});
       if (out.findings.empty()) delete tree;
    }
    else {
       std::deque<INode> store;
       Intrusive tree;
-      exercise(c, out, tree, &store);
+      if (c.cmp == 3) exercise(c, out, tree, &store, WideComp{});
+      else exercise(c, out, tree, &store, Comp{c.cmp});
    }
    return out;
 }
@@ -388,7 +399,7 @@ rc::Gen<Case> generator(const vf::Options& o)
    using namespace rc;
    const int max_n = int(o.get("maxkeys", 2000));
    // the size parameter scales the key count; the shapes themselves are size independent
-   return gen::map(gen::tuple(vf::in_range<int>(0, 2), vf::in_range<int>(0, 3),
+   return gen::map(gen::tuple(vf::in_range<int>(0, 2), vf::in_range<int>(0, 4),
                               gen::withSize([max_n](int size) { return shaped_keys(std::max(1, int((long long)size * max_n / 100))); })),
                    [](const std::tuple<int, int, std::vector<int>>& t) {
                       Case c;
@@ -418,7 +429,7 @@ void exhaustive(const vf::Options& o, vf::Tally& tally)
          std::vector<int> p(n);
          std::iota(p.begin(), p.end(), 1);
          do {
-            for (int cmp = 0; cmp < (n <= 6 ? 3 : 1); ++cmp) {
+            for (int cmp = 0; cmp < (n <= 6 ? 4 : 1); ++cmp) {
                Case c{flavor, cmp, p};
                vf::Outcome out = vf::run_enumerated("C08", run_case, c, o, to_text(c));
                vf::account(o, tally, to_text(c), sample(c), out);
@@ -464,7 +475,7 @@ bool decode(const std::uint8_t* d, std::size_t n, const vf::Options&, Case& c)
    c = Case{};
    if (n < 5) return false;
    c.flavor = d[0] % 2;
-   c.cmp = d[1] % 3;
+   c.cmp = d[1] % 4;
    const unsigned mask = d[2] % 3 == 0 ? 0xffu : (d[2] % 3 == 1 ? 0xfffu : unsigned(key_limit - 1));
    for (std::size_t i = 3; i + 2 <= n; i += 2) c.keys.push_back(int((unsigned(d[i]) | unsigned(d[i + 1]) << 8) & mask));
    return true;
